@@ -594,10 +594,16 @@ func (f *FnEnc) doTypeAssert(x *ssa.TypeAssert) {
 		zero := f.e.reg.zeroOf(at)
 		vn := f.def(x.Name()+".v", s, fmt.Sprintf("(ite %s %s %s)", okn, val, zero))
 		f.tuples[x] = []Val{{vn, s}, {okn, "Bool"}}
+		if tf := f.typeFacts(at, vn); tf != "true" && !types.IsInterface(at) {
+			f.assume(tf)
+		}
 		return
 	}
 	f.oblige("safe", "typeassert", f.autoTags(), ok, "")
 	f.vals[x] = Val{f.def(x.Name(), s, val), s}
+	if tf := f.typeFacts(at, f.vals[x].T); tf != "true" && !types.IsInterface(at) {
+		f.assume(tf)
+	}
 }
 
 func (f *FnEnc) doConvert(x *ssa.Convert) {
